@@ -100,7 +100,8 @@ def coord_to_index(coord, coords, include_stop=False):
 
 
 def gen_coord_list(start, step, count):
-    return np.arange(start, start + step*count, step)
+    # Not np.arange(start, stop, step): with a float step the number of elements is unreliable
+    return start + step * np.arange(count)
 
 
 def bytes_to_double(bytes):
